@@ -2,7 +2,7 @@
 # Builds the framework tools from /verif sources only (offline) and warms the go1.26.8 build cache
 # for the overlay-patched standard library.
 set -e
-cd /verif
+cd "${VERIF_DIR:-/verif}"
 export GOFLAGS=-mod=mod GOPROXY=off GOSUMDB=off GOTOOLCHAIN=local
 mkdir -p bin
 go build -o bin/gen-overlay ./overlay
